@@ -1,6 +1,7 @@
 (* props/C18.v - C18: the temperature follows the requested annealing schedule. *)
 From Coq Require Import ZArith NArith List Bool Reals Floats.
 From PV Require Import Num NumR model.Optimiser model.OptSpec proofs.OptStruct proofs.OptLoop proofs.FloatFacts proofs.FloatZero proofs.HillClimb proofs.RealFacts.
+From PV Require Import model.Cli gen.GenCli proofs.CliFacts.
 
 Theorem C18_kt_schedule :
   forall (NN : Num) (fexp : carrier NN -> carrier NN) (score : N -> list (carrier NN) -> option
@@ -96,4 +97,36 @@ Theorem C18_zero_stays_zero_binary64 :
     (run NumF fexp score c (init NumF c ps hs s0) draws) = 0%float.
 Proof. exact HillClimb.C05_zero_temperature_stays_zero. Qed.
 Print Assumptions C18_zero_stays_zero_binary64.
+
+
+Theorem C18_cli_stage2_is_the_users_schedule :
+  forall (NN : Num) (i : N) (u : sbuilder NN), sb NN (stage_settings NN (gen_stages NN) 1 i u) =
+    sb NN u /\ sb_seed NN (stage_settings NN (gen_stages NN) 1 i u) = Some i.
+Proof. exact cli_stage2_settings. Qed.
+Print Assumptions C18_cli_stage2_is_the_users_schedule.
+
+Theorem C18_cli_bare_command_line :
+  forall (NN : Num) (fpow : carrier NN -> carrier NN -> carrier NN), let c := build NN fpow (sb
+    NN (gen_builder_cli NN)) in steps NN c = 100%N /\ inner NN c = 100%N /\ factor NN c = tenth
+    NN /\ conv NN c = None /\ loops_of (steps NN c) (inner NN c) = 1%N.
+Proof. exact cli_bare_command_line. Qed.
+Print Assumptions C18_cli_bare_command_line.
+
+Theorem C18_setters_are_model_setters :
+  length (gen_setter_probes NumF) = 10 /\ forallb (fun p : setter NumF * sbuilder NumF =>
+    sbuilder_eqb NumF (apply_setter NumF 0 (gen_builder_default NumF) (fst p)) (snd p))
+    (gen_setter_probes NumF) = true /\ map (fun p : setter NumF * sbuilder NumF => match fst p
+    with | SetSteps _ _ => 1 | SetInner _ _ => 2 | SetKtStart _ _ => 3 | SetKtFinish _ _ => 4 |
+    SetKtRatio _ (Some _) => 6 | SetKtRatio _ None => 5 | SetMaxStep _ _ => 7 | SetConv _ (Some
+    _) => 9 | SetConv _ None => 8 | SetSeed _ _ => 10 end) (gen_setter_probes NumF) = 8 :: 9 ::
+    2 :: 4 :: 5 :: 6 :: 3 :: 7 :: 10 :: 1 :: nil.
+Proof. exact cli_setters_are_model_setters. Qed.
+Print Assumptions C18_setters_are_model_setters.
+
+Theorem C18_library_default_reaches_finish :
+  let b := sb NumR (gen_builder_default NumR) in let c := build NumR Rpower b in cooled NumR
+    (kt_start NumR c) (factor NumR c) (N.to_nat (loops_of (steps NumR c) (inner NumR c))) = (1 /
+    1000)%R.
+Proof. exact lib_default_reaches_finish. Qed.
+Print Assumptions C18_library_default_reaches_finish.
 
